@@ -135,6 +135,15 @@ def r13_8(ctx: Ctx) -> None:
                     ok = True
         # every member's path is added: the add is not conditional on the test
         every = addc is not None and not any(pol is not None and isinstance(cd, ast.Compare) and norm(cd.comparators[0]) == sname for cd, pol in q.facts_at(f, addc) if isinstance(cd, ast.Compare) and cd.comparators)
+        # ... whatever the kind of output: products of a factory are shared between the workers like files are.  The add is a statement of the
+        # registration loop itself, not of a conditional arm inside it
+        lps = q.enclosing_loops(f, addc)
+        if lps:
+            arms = [n for n in ast.walk(lps[-1]) if isinstance(n, ast.If) and any(x is addc for st in n.body + n.orelse for x in ast.walk(st))]
+            ctx.check(not arms, "R13.8", f, arms[0] if arms else addc, "every registered output path is entered in the set, for every kind of output",
+                      (f"`if {norm(arms[0].test)[:60]}`: " if arms else "") + f"the output path is entered in `{sname}` (and looked up in it) only on some arm of the registration loop: for the other "
+                      "outputs (e.g. the products of a writer factory) members 'd/a.txt' and 'x/../d/a.txt' of two folders are written by two workers at once and the schedule "
+                      "decides whose content remains", construct="output path set filled conditionally")
         # the key is the file the path LEADS to (links already in the destination resolved): 'lib/f' and 'lib64/f' are one file when lib -> lib64
         resolved = q.derives_from(f, addc.args[0], lambda v: isinstance(v, ast.Call) and ((dotted(v.func) or "").endswith("realpath") or attr_tail(v) == "resolve"), depth=3)
         ctx.check(resolved, "R13.8", f, addc, "output paths are compared after resolving links that exist in the destination",
@@ -178,6 +187,7 @@ def run(ctx: Ctx) -> None:
     from . import c03 as _c03, c06 as _c06
     _c03.parallel_guard(ctx, "R13.6")
     _c06.r06_10(ctx, rule="R13.7")  # each task decodes its own folder's byte window
+    shared.windowed_traversal(ctx, "R13.9")  # every folder task is started, and the batching cannot fail where the sequential arm succeeds
     ex = ctx.prog.func("py7zr", "Worker.extract")
     cfg = cfg_of(ex.node)
     spawns = list(spawn_sites(ctx, ex))
